@@ -11,7 +11,7 @@ from pyvc.core import *
 from pyvc.values import *
 from pyvc.interp import Obj, Builtin, BoundMethod, Closure
 from pyvc.heap import *
-from .common import make_script_registry, guard, npx
+from .common import make_script_registry, guard, npx, run_loop_body
 
 MOD = "shangrla.core.Audit"
 SCRIPTS, script = make_script_registry(__name__)
@@ -251,6 +251,9 @@ def find_margin_from_tally(S, I, variant):
         if exc:
             return
         asn = r["W v ALL_OTHERS"]
+    if not plur:
+        ctx().assume(icmp(">=", iadd(tw, tl), 1))          # some valid vote (p is a share of the valid votes)
+        ctx().assume(icmp("<=", iadd(tw, tl), cards))
     _, exc = guard(S, I, lambda: I.call(I.getattr(asn, "find_margin_from_tally"), [], {}))
     if exc:
         return
@@ -259,9 +262,13 @@ def find_margin_from_tally(S, I, variant):
     if plur:
         S.eq("margin = (tally_w - tally_l)/cards", m, xdiv_np(XR.const(mkint(isub(tw, tl))), cN))
     else:
-        q = xdiv_np(XR.const(mkint(iadd(tw, tl))), cN)
-        p = xdiv_np(XR.const(tw), cN)
-        S.eq("margin = q (p/f - 1), q = valid share, p = winner share (of cards)", m, xmul(q, xsub(xdiv_np(p, f), ONE)))
+        # the property: margin from the tally = 2 * (assorter mean over the same cards) - 1.  With W winner votes and V valid votes
+        # among `cards` cards the mean is (W/(2f) + (cards - V)/2)/cards (lemma `supermajority_iff_lemma`), so the margin is
+        # W/(f cards) - V/cards  =  q (p/f - 1)  with q = V/cards the share of cards with a valid vote and p = W/V the winner's
+        # share OF THE VALID VOTES
+        V = XR.const(mkint(iadd(tw, tl)))
+        S.eq("margin = 2 mean - 1 = W/(f cards) - V/cards  (q (p/f - 1), q = share of cards with a valid vote, p = winner's share of the valid votes)",
+             m, xsub(xdiv_np(XR.const(tw), xmul(f, cN)), xdiv_np(V, cN)))
 
 
 # ------------------------------------------------------------------ C03 / C06 / C08: overstatement, overstatement assorter
@@ -787,7 +794,7 @@ class CounterLoopSummary:
                 d[key] = spec(j0)
             env2 = Env({st.target.id: lst.at(j0)}, env, env.module)
             env2.fn_qual = getattr(env, "fn_qual", None)
-            I.exec_block(st.body, env2, in_class)
+            run_loop_body(I, st, env2, in_class)
             known = {(id(d), key) for d, key, _ in self.counters}
             for d, key, spec in self.counters:
                 S.holds(f"counter [{key}] after record j = its value over the first j+1 records", icmp("==", d.get(key, 0), spec(j0 + 1)))
@@ -970,7 +977,7 @@ class InterleaveInvariant:
             for nm_, g in self.inv(env.vars, i, x, cnt):
                 c.assume(g)
             xold = x.copy()
-            I.exec_block(st.body, env, in_class)
+            run_loop_body(I, st, env, in_class)
             x2 = env.vars["x"]
             cnt2 = self.counts(x2)
             # entries below i are untouched, so the ghost counts up to i are unchanged (induction), then one step
@@ -1395,11 +1402,19 @@ class RecordLoopSummary:
         from pyvc.interp import Env
         S, c = self.S, ctx()
         view = I.eval(st.iter, env)
-        if not isinstance(view, SymDictView) or view.kind != "items" or not (isinstance(st.target, ast.Tuple) and len(st.target.elts) == 2
-                                                                              and all(isinstance(t, ast.Name) for t in st.target.elts)):
-            raise NotApplicable("loop is not `for key, record in <symbolic-size dict>.items()`")
+        if isinstance(view, SymObjDict):
+            view = SymDictView(view, "keys")            # `for k in d` iterates the keys
+        if not isinstance(view, SymDictView):
+            raise NotApplicable("loop is not over a symbolic-size dict (items / values / keys)")
         d = view.d
-        kname, rname = st.target.elts[0].id, st.target.elts[1].id
+        if view.kind == "items" and isinstance(st.target, ast.Tuple) and len(st.target.elts) == 2 and all(isinstance(t, ast.Name) for t in st.target.elts):
+            kname, rname = st.target.elts[0].id, st.target.elts[1].id
+        elif view.kind == "values" and isinstance(st.target, ast.Name):
+            kname, rname = None, st.target.id
+        elif view.kind == "keys" and isinstance(st.target, ast.Name):
+            kname, rname = st.target.id, None
+        else:
+            raise NotApplicable("loop target does not match the dict view it iterates")
         assigned = set()
         for n in ast.walk(ast.Module(body=st.body, type_ignores=[])):
             if isinstance(n, (ast.Assign, ast.AugAssign)):
@@ -1413,8 +1428,11 @@ class RecordLoopSummary:
         acc = carried[0] if carried else None
         # the object whose `.assertions` (or other attribute) is iterated: its dict-valued attributes may receive one item per entry
         owner = None
-        if isinstance(st.iter, ast.Call) and isinstance(st.iter.func, ast.Attribute) and isinstance(st.iter.func.value, ast.Attribute):
-            owner = I.eval(st.iter.func.value.value, env)
+        base = st.iter
+        if isinstance(base, ast.Call) and isinstance(base.func, ast.Attribute) and base.func.attr in ("items", "values", "keys"):
+            base = base.func.value
+        if isinstance(base, ast.Attribute):
+            owner = I.eval(base.value, env)
         n = d.length
         if acc is not None:
             S.holds(f"[{self.tag(owner)}] accumulator on entry = its initial value", self.same_acc(I, env.vars[acc], self.acc_at(d, 0)))
@@ -1439,7 +1457,11 @@ class RecordLoopSummary:
             scratch = {a: dict(v) for a, v in before_dicts.items()}
             for a, v in scratch.items():
                 owner.attrs[a] = v
-            ev = {kname: d.key_at(j), rname: rec}
+            ev = {}
+            if kname is not None:
+                ev[kname] = d.key_at(j)
+            if rname is not None:
+                ev[rname] = rec
             if acc is not None:
                 ev[acc] = self.acc_at(d, j)
             env2 = Env(ev, frozen, env.module)
@@ -1447,7 +1469,7 @@ class RecordLoopSummary:
             had = d._recs.get(k)
             d._recs[k] = rec
             try:
-                I.exec_block(st.body, env2, in_class)
+                run_loop_body(I, st, env2, in_class)
                 entries = {}
                 for a, v in scratch.items():
                     if owner.attrs.get(a) is not v:
@@ -1607,8 +1629,7 @@ def set_p_values_unbounded(S, I, variant):
     summ = RecordLoopSummary(S, lambda d, j: specs[by_dict[id(d)]]["RM"].at(j), check)
     import ast as _ast
     I.loop_matchers["Assertion.set_p_values"] = [
-        (lambda st: isinstance(st, _ast.For) and isinstance(st.iter, _ast.Call) and isinstance(st.iter.func, _ast.Attribute)
-         and st.iter.func.attr == "items" and isinstance(st.iter.func.value, _ast.Attribute) and st.iter.func.value.attr == "assertions", summ)]
+        (_is_items_loop_over("assertions"), summ)]
     fn = I.get(MOD, "Assertion.set_p_values")
     mv = [sym_cvr(I, "mvr0", {"c0": ["A", "B"]})]
     r, exc = guard(S, I, lambda: I.call(fn, [], {"contests": contests, "mvr_sample": mv, "cvr_sample": list(mv)}))
@@ -1651,8 +1672,7 @@ def summarize_status_unbounded(S, I, variant):
     summ = RecordLoopSummary(S, lambda d, j: specs[by_dict[id(d)]]["RM"].at(j), None)
     import ast as _ast
     I.loop_matchers["Audit.summarize_status"] = [
-        (lambda st: isinstance(st, _ast.For) and isinstance(st.iter, _ast.Call) and isinstance(st.iter.func, _ast.Attribute)
-         and st.iter.func.attr == "items" and isinstance(st.iter.func.value, _ast.Attribute) and st.iter.func.value.attr == "assertions", summ)]
+        (_is_items_loop_over("assertions"), summ)]
     audit = Obj(I.get(MOD, "Audit"), {})
     fn = I.getattr(audit, "summarize_status")
     r, exc = guard(S, I, lambda: I.call(fn, [contests], {}))
@@ -1707,8 +1727,7 @@ def reset_p_values_unbounded(S, I, variant):
     summ = RecordLoopSummary(S, None, check)
     import ast as _ast
     I.loop_matchers["Assertion.reset_p_values"] = [
-        (lambda st: isinstance(st, _ast.For) and isinstance(st.iter, _ast.Call) and isinstance(st.iter.func, _ast.Attribute)
-         and st.iter.func.attr == "items" and isinstance(st.iter.func.value, _ast.Attribute) and st.iter.func.value.attr == "assertions", summ)]
+        (_is_items_loop_over("assertions"), summ)]
     fn = I.get(MOD, "Assertion.reset_p_values")
     r, exc = guard(S, I, lambda: I.call(fn, [], {"contests": contests}))
     if exc:
@@ -1776,10 +1795,19 @@ def contest_collection(S, I, with_p=False):
 
 
 def _is_items_loop_over(attr):
+    """a `for` loop over d.items() / d.values() / d.keys() / d itself, where d is `<expr>.<attr>` (attr given) or a plain name"""
     import ast as _ast
-    return lambda st: isinstance(st, _ast.For) and isinstance(st.iter, _ast.Call) and isinstance(st.iter.func, _ast.Attribute) \
-        and st.iter.func.attr == "items" and ((isinstance(st.iter.func.value, _ast.Attribute) and st.iter.func.value.attr == attr)
-                                              if attr else isinstance(st.iter.func.value, _ast.Name))
+
+    def pred(st):
+        if not isinstance(st, _ast.For):
+            return False
+        base = st.iter
+        if isinstance(base, _ast.Call) and isinstance(base.func, _ast.Attribute) and base.func.attr in ("items", "values", "keys") and not base.args:
+            base = base.func.value
+        if attr is None:
+            return isinstance(base, _ast.Name) and base.id in ("contests", "con_dict")
+        return isinstance(base, _ast.Attribute) and base.attr == attr
+    return pred
 
 
 @script(["C09", "C06", "C10"], "Assertion.set_p_values/post (unbounded numbers of contests and of assertions per contest)", optional=True)
